@@ -20,9 +20,10 @@
    cell, the numbers listed for it are b..e-1 and one -1, and add_line_numbers
    pairs cell i with line b+i without running out of numbers
    (C16_region_numbered, coq/proofs/HtmlNumbers.v).  Premises of the region
-   theorems that stay premises: the last highlight of the region ends in front
-   of the start of line e (true when the text ends with a line break, which the
-   shell guarantees; not derived here), and the style strings and the escaped
+   theorems that stay premises: every highlight of the region ends in front of
+   or at the start of line e (true when the text ends with a line break, which
+   the shell guarantees, and the position map holds offsets of the text; not
+   derived here), and the style strings and the escaped
    URL hold no '<'.  The context arithmetic of generate_html (which lines a
    region covers) and the no-match branch are part of the executable model and
    are decided by the byte-exact correspondence run and the HTML-parsing oracle
@@ -181,9 +182,8 @@ Theorem C16_region_numbered : forall st_ stu number_style,
   forall tex reg html ov nums,
   region_out st_ stu tex (line_starts tex) reg = Ok (html, ov, nums) ->
   (match reg with h0 :: _ => 0 <= h_beglin h0 <= max_endlin reg | [] => False end)%Z ->
-  (forall st en, match reg with h0 :: _ => start_at (line_starts tex) (h_beglin h0) = Ok st | [] => False end ->
-                 start_at (line_starts tex) (max_endlin reg) = Ok en ->
-                 region_last reg st <= en)%Z ->
+  (forall en, start_at (line_starts tex) (max_endlin reg) = Ok en ->
+              Forall (fun h => h_end h <= en) reg)%Z ->
   Forall (fun h => (h_beg h <= h_end h)%Z) reg ->
   Forall (fun h => url_ok (h_m h)) reg ->
   exists (cs : list (list atom)) b e p q,
